@@ -80,6 +80,9 @@ func (w *World) verifyFunction(fn *ssa.Function, c *Contract) *Exec {
 		la := x.loopsOf(fn)
 		for _, li := range la.list {
 			x.boundLoops[li.key] = true
+			if li.hasDefr {
+				x.boundLoops["deferloop "+li.key] = true
+			}
 		}
 		// call sites that exist in the code (reached or not)
 		for _, b := range fn.Blocks {
